@@ -94,6 +94,9 @@ type ScriptOutcome struct {
 	BurstRaces      int      // bursts with more than one possible model outcome
 	Skipped         int      // answer stimuli skipped because nothing was pending
 	M               *model.M
+	// NodeCancels: nodes for which a CancellationFlowNodeTrace was seen while
+	// the instance was alive (before the driver ended it), with multiplicity
+	NodeCancels []string
 }
 
 func canonicalPending(m *model.M) []int {
@@ -201,6 +204,14 @@ func RunScript(c *ScriptCase) *ScriptOutcome {
 		return out
 	}
 	defer in.Close()
+	defer func() {
+		// (runs before Close: the instance's context is still alive)
+		for _, t := range in.Traces() {
+			if ct, ok := t.(bpmn.CancellationFlowNodeTrace); ok {
+				out.NodeCancels = append(out.NodeCancels, elemID(ct.Node))
+			}
+		}
+	}()
 	fail := func(sym, det string, gs []quiesce.G) *ScriptOutcome {
 		out.Symptom, out.Detail = sym, det
 		out.Traces = DescribeAll(in.Traces())
